@@ -65,6 +65,37 @@ pub fn gen_cfg(r: &mut Rng, t: &Target) -> DumpCfg {
         c.gregs[libc::REG_RSP as usize] = *r.pick(&[rsp_real, rsp_real, rsp_real.wrapping_add(64), 0x1000, u64::MAX - 15]) as i64;
         cfg.crash = Some(c);
     }
+    // … or the instruction pointer sits on a mapping boundary: the first byte of a mapping that starts where
+    // the previous one ends, the last byte of a mapping, the first byte after a gap
+    if let Some(c) = cfg.crash.as_mut() {
+        if r.chance(1, 3) {
+            let lines: Vec<(u64, u64, bool)> = t.maps_text().lines().filter_map(|l| {
+                let mut it = l.split_whitespace();
+                let range = it.next()?;
+                let perms = it.next()?;
+                let (a, b) = range.split_once('-')?;
+                Some((u64::from_str_radix(a, 16).ok()?, u64::from_str_radix(b, 16).ok()?, perms.starts_with('r')))
+            }).collect();
+            let mut cands: Vec<u64> = Vec::new();
+            for (i, (a, b, readable)) in lines.iter().enumerate() {
+                if !*readable || *a >= 0xffff_8000_0000_0000 {
+                    continue;
+                }
+                if i > 0 && lines[i - 1].1 == *a {
+                    cands.push(*a); // contiguous with the previous mapping
+                    cands.push(*a);
+                } else {
+                    cands.push(*a);
+                }
+                cands.push(*b - 1);
+                cands.push(*a + 127);
+                cands.push(*b - 128);
+            }
+            if !cands.is_empty() {
+                c.gregs[libc::REG_RIP as usize] = *r.pick(&cands) as i64;
+            }
+        }
+    }
     // the blamed thread may be absent (a tid that is not a thread of the target)
     if r.chance(1, 12) {
         cfg.blamed = 0x3ff0_0000 + r.below(1000) as i32;
